@@ -543,8 +543,13 @@ more:
 			ins = echs_evical_pull(&pp);
 
 			/* only allow PUBLISH requests for now */
-			if (UNLIKELY(ins.v != INSVERB_SCHE)) {
+			if (UNLIKELY(ins.v == INSVERB_UNK)) {
+				/* more data needed */
 				break;
+			} else if (UNLIKELY(ins.v != INSVERB_SCHE)) {
+				/* not for us, but there may be more
+				 * in this buffer */
+				continue;
 			} else if (UNLIKELY(ins.t == NULL)) {
 				continue;
 			} else if (UNLIKELY(!ins.t->oid)) {
@@ -601,8 +606,13 @@ more:
 			ins = echs_evical_pull(&pp);
 
 			/* only allow PUBLISH requests for now */
-			if (UNLIKELY(ins.v != INSVERB_SCHE)) {
+			if (UNLIKELY(ins.v == INSVERB_UNK)) {
+				/* more data needed */
 				break;
+			} else if (UNLIKELY(ins.v != INSVERB_SCHE)) {
+				/* not for us, but there may be more
+				 * in this buffer */
+				continue;
 			} else if (UNLIKELY(ins.t == NULL)) {
 				continue;
 			} else if (UNLIKELY(!ins.t->oid)) {
